@@ -420,6 +420,9 @@ class CmdMixin(object):
         # one of the first two sides
         if not ok:
             if err == "crowded" and len(m.sides) >= 3:
+                # the refused claim nevertheless left this side's claim row on the nameplate
+                n.taint.add("crowd")
+                m.taint.add("crowd")
                 self.known_finding("F7", {"C05", "C14"}, st,
                                    {"cmd": "claim", "side": cm.side, "sides": m.side_names()})
                 return
